@@ -554,7 +554,18 @@ func builtinModels() map[string]modelFn {
 		}
 		return e.wobj(st, ch.obj)
 	}
-	m["time.AfterFunc"] = func(e *Engine, st *State, c *callCtx) { e.finish(st, c, newTimer(e, st, c, false)) }
+	m["time.AfterFunc"] = func(e *Engine, st *State, c *callCtx) {
+		t := newTimer(e, st, c, false)
+		if d, ok := c.args[0].(*Term); ok && d.IsConst() && e.cfg.GoPolicy["@afterfunc"] == "fire" {
+			// the callback runs once the modelled clock reaches the deadline and nothing else can happen
+			p := t.(PtrVal)
+			ch := e.obj(st, p.obj).slots[p.off].(ChanVal)
+			wo := e.wobj(st, ch.obj)
+			wo.hasAfter, wo.afterFn, wo.timerAt = true, c.args[1].(FuncVal), st.clock+d.Signed()
+			st.afterTimers = append(st.afterTimers, ch.obj)
+		}
+		e.finish(st, c, t)
+	}
 	m["time.NewTimer"] = func(e *Engine, st *State, c *callCtx) { e.finish(st, c, newTimer(e, st, c, true)) }
 	m["(*time.Timer).Stop"] = func(e *Engine, st *State, c *callCtx) {
 		o := timerChan(e, st, c)
@@ -566,6 +577,13 @@ func builtinModels() map[string]modelFn {
 		o := timerChan(e, st, c)
 		was := o.timerActive
 		o.timerActive = true
+		if o.hasAfter {
+			d, ok := c.args[1].(*Term)
+			if !ok || !d.IsConst() {
+				e.unsupported(st, "(*time.Timer).Reset of an AfterFunc timer with a symbolic duration")
+			}
+			o.timerAt = st.clock + d.Signed()
+		}
 		e.finish(st, c, e.ctx.Bool(was))
 	}
 	// display-only parts of time.Time: the location and the printed form are outside every claim
